@@ -432,8 +432,10 @@ def check_reader(rng, fails, stats, tmpdir):
                     fails.append({'kind': 'reader', 'tree': specs, 'sub': None, 'msg': 'reader full read differs'})
                 # reader.read(...) with slice / None / Ellipsis ranges (an int range means slice(int) in the reader API,
                 # which is documented reader behaviour and not part of this property)
-                for _ in range(4):
-                    sub = rand_subscript(rng, full.shape)
+                fixed = [['tuple', 'E', [0, full.shape[-1], 1]], ['tuple', [0, full.shape[0], 1], 'E'], ['tuple', 'E'],
+                         ['tuple', 'E', [None, None, -1]]]
+                for t in range(4 + len(fixed)):
+                    sub = rand_subscript(rng, full.shape) if t < 4 else fixed[t - 4]
                     if sub is None or isinstance(sub, int):
                         continue
                     if sub[0] == 'slice':
@@ -482,7 +484,7 @@ def classify(f):
         return None
     msg = f['msg']
     kept = _complex_kept_leaves(f['tree'])
-    if kept and 'refused' in msg and 'Slicing along the complex dimension' in msg:
+    if kept and ('refused' in msg or 'raised' in msg) and 'Slicing along the complex dimension' in msg:
         return 'complex-kept-band-nonunit-step'
     if kept and 'Got out of bounds argument' in msg and ('raised' in msg or 'refused' in msg):
         for leaf in kept:
